@@ -32,6 +32,7 @@ MAX_AST_DEPTH = 50  # Nesting levels
 MAX_INT_BITS = 100_000  # Integer results larger than this are refused
 MAX_SEQUENCE_LENGTH = 1_000_000  # Longest str/list/tuple a repetition may build
 MAX_FACTORIAL_ARG = 5_000
+MAX_ROUND_DIGITS = 10_000  # |ndigits| accepted by round()
 
 
 def _bounded_pow(base: Any, exponent: Any) -> Any:
@@ -52,6 +53,22 @@ def _bounded_mul(left: Any, right: Any) -> Any:
         if left.bit_length() + right.bit_length() > MAX_INT_BITS:
             raise ValueError("Result of * too large")
     return operator.mul(left, right)
+
+def _bounded_factorial(n: Any) -> Any:
+    """math.factorial that refuses arguments too large to compute in bounded time (also when used as key=...)."""
+    if isinstance(n, int) and not isinstance(n, bool) and n > MAX_FACTORIAL_ARG:
+        raise ValueError("factorial() argument too large")
+    return math.factorial(n)
+
+
+def _bounded_round(number: Any, ndigits: Any = None) -> Any:
+    """round that refuses digit counts whose power of ten is too large to compute in bounded time."""
+    if isinstance(ndigits, int) and abs(ndigits) > MAX_ROUND_DIGITS:
+        raise ValueError("round() ndigits too large")
+    if ndigits is None:
+        return round(number)
+    return round(number, ndigits)
+
 
 class MetabolicPathway(Enum):
     """
@@ -196,7 +213,7 @@ class Mitochondria:
     SAFE_FUNCTIONS: dict[str, Any] = {
         # Basic
         'abs': abs,
-        'round': round,
+        'round': _bounded_round,
         'min': min,
         'max': max,
         'sum': sum,
@@ -225,7 +242,7 @@ class Mitochondria:
         'ceil': math.ceil,
         'floor': math.floor,
         'trunc': math.trunc,
-        'factorial': math.factorial,
+        'factorial': _bounded_factorial,
         'gcd': math.gcd,
         'degrees': math.degrees,
         'radians': math.radians,
@@ -581,8 +598,6 @@ class Mitochondria:
                     if any(kw.arg is None for kw in node.keywords):
                         raise ValueError("Argument unpacking (**) is not supported")
                     kwargs = {kw.arg: self._compute_node(kw.value) for kw in node.keywords}
-                    if func is math.factorial and args and isinstance(args[0], int) and args[0] > MAX_FACTORIAL_ARG:
-                        raise ValueError("factorial() argument too large")
                     if callable(func):
                         return func(*args, **kwargs)
                     return func  # Constants like pi, e
